@@ -1451,7 +1451,9 @@ impl ProtocolState {
                     validation_context.negotiated_settings = Some(settings);
                 }
 
-                if let Err(error) = validate_packet_outbound_internal(packet, &validation_context) {
+                let validation_result = validate_packet_outbound_internal(packet, &validation_context)
+                    .and_then(|_| validate_packet_for_protocol_version(packet, self.protocol_version));
+                if let Err(error) = validation_result {
                     warn!("[{} ms] service_queue - {} operation {} failed last-chance validation", self.elapsed_time_ms, mqtt_packet_to_str(packet), current_operation_id);
                     if outbound_alias_resolution.alias.is_some() {
                         // the resolver may have recorded an alias binding for this packet, which the server will
@@ -2285,6 +2287,20 @@ impl ProtocolState {
     pub(crate) fn get_negotiated_settings(&self) -> &Option<NegotiatedSettings> {
         &self.current_settings
     }
+}
+
+// Rules that depend on the protocol version in use rather than on the packet alone
+fn validate_packet_for_protocol_version(packet: &MqttPacket, protocol_version: ProtocolVersion) -> GneissResult<()> {
+    if let MqttPacket::Connect(connect) = packet {
+        // MQTT 3.1.1 [MQTT-3.1.2-22]: "If the User Name Flag is set to 0, the Password Flag MUST be set to 0" (MQTT 5 allows it)
+        if protocol_version == ProtocolVersion::Mqtt311 && connect.password.is_some() && connect.username.is_none() {
+            let message = "validate_packet_for_protocol_version - MQTT 3.1.1 does not allow a password without a username";
+            error!("{}", message);
+            return Err(GneissError::new_packet_validation(PacketType::Connect, message));
+        }
+    }
+
+    Ok(())
 }
 
 fn ignore_user_initiated_disconnect(result: GneissResult<()>) -> GneissResult<()> {
